@@ -243,6 +243,21 @@ def run_perms(case):
                     leak_check(op.replace('_narrow', ''), rsp, link)
                     if not rsp:
                         sim.violation_once(f'noresp:{op}', f'no-response:{op.replace("_narrow", "")}:{(rwhy or ["permitted"])[0]}', f'request {pdu.hex()} got no answer at all')
+                # ---- a handle list in which the refused handle is NOT the first: the server gets as far as that handle (the value
+                # before it is short enough to leave room at any ATT_MTU), refuses the access, and the whole request is answered
+                # with that error - not with the values read so far
+                # (left out, as for Read By Type below: what the open findings already report)
+                sec = [w for w in rwhy if w != 'not-readable' and not (w == 'needs-authentication' and state['enc'])]
+                short = [x for x in ts if x is not t and len(cur(x)) <= 8 and not _why(x['perms'], state['enc'], state['authn'], write=False)]
+                if sec and short:
+                    o = short[0]['attr'].handle
+                    for op, opcode in (('read_multiple', 0x0E), ('read_multiple_variable', 0x20)):
+                        rsp = ask(b, bytes([opcode]) + struct.pack('<HH', o, h))
+                        sim.probe('handle_list_with_the_refused_handle_second')
+                        leak_check(op, rsp, link)
+                        if rsp and rsp[0][:1] == bytes([opcode + 1]):
+                            sim.violation_once(f'listok:{op}:{sec[0]}', f'handle-list-read-answered-although-one-handle-is-refused:{op}:{sec[0]}',
+                                               f'{op} over [{o:#06x}, {h:#06x}], the second (permissions {perms:#04x}: {", ".join(rwhy)}) refused on a {link} link, got {rsp[0][:6].hex()}..')
                 # ---- Read By Type over the whole range: when the FIRST attribute of that type is refused for a security reason,
                 # the answer is that refusal (Error Response naming it), not the attributes that follow
                 same = sorted((x for x in targets if x['kind'] == 'value' and gattdb.uuid_bytes_from_obj(x['attr'].type) == typ), key=lambda x: x['attr'].handle)
